@@ -3,6 +3,7 @@ mod findings;
 mod alphabet;
 mod guard;
 mod props;
+mod refpow;
 mod refstf;
 mod refvm;
 mod report;
